@@ -26,7 +26,7 @@ ADVERSARIAL = ["a", "ab", "a_b", "aa", "b", "ba", "a1", "_a", "A"]
 # sub modules in sorted order.  Legal as directory names and as names of directly constructed graphs (never written into import statements).
 SORT_TRICKY = ["a", "a-b", "a+b", "a b", "a$", "a#1", "ab", "b", "b-"]
 # large / unusual: 30 numbered names (m2 < m10 numerically, not lexicographically), non-ASCII identifiers, a very long name
-LARGE_POOL = ["m%d" % i for i in range(30)] + ["pkg_\u00e9", "\u00df_mod", "\u03b4elta", "long_" + "x" * 60, "Z9", "_"]
+LARGE_POOL = ["m%d" % i for i in range(30)] + ["m01", "m001", "m1_0", "step_1", "step_01", "pkg_\u00e9", "\u00df_mod", "\u03b4elta", "long_" + "x" * 60, "Z9", "_"]
 # non-ASCII names, some of them not stable under Unicode normalisation (micro sign, fi ligature, combining accent, full-width letter)
 UNICODE_POOL = ["\u00b5_core", "\ufb01le", "e\u0301", "\uff41b", "\u00e9", "\u00aa", "x", "\u03bc_core"]
 
@@ -800,11 +800,40 @@ def gen_limited_cases(rng, n, strict):
     return cases
 
 
+TWINS = ["step_1", "step_01", "step_001", "m1", "m01", "a1", "a01", "v2", "v02", "x_10", "x_010"]
+
+
+def gen_twin_cases(rng, n):
+    """Sibling modules whose names differ only in how a number is written (leading zeros), all standing in the same relation to one
+    module: several report lines that coincide under any 'natural' or numeric reading of the names."""
+    cases = []
+    while len(cases) < n:
+        twins = ["r.p." + t for t in rng.sample(TWINS, rng.randint(3, 6))]
+        nodes = sorted(["r", "r.p", "r.x", "r.y"] + twins)
+        E = set()
+        for t in twins:
+            r = rng.random()
+            if r < 0.6:
+                E.add((t, "r.x"))
+            if rng.random() < 0.5:
+                E.add(("r.y", t))
+        subj = ("named", rng.sample(twins, rng.randint(2, len(twins))))
+        specs = all_shapes(subj, ("named", ["r.x"])) + all_shapes(subj, ("named", ["r.y"]), with_aliases=False)
+        cases.append(dict(nodes=nodes, edges=sorted(E), specs=specs, mode="direct", tag=("rand", True, "twins")))
+    return cases
+
+
 def gen_random_cases(rng, n, strict, mode="direct", pools=(COLLISION_FREE, ADVERSARIAL)):
     if mode == "alias_nested":
         return gen_alias_nested_cases(rng, n)
     if mode == "limited":
         return gen_limited_cases(rng, n, strict)
+    if mode == "twins":
+        return gen_twin_cases(rng, n)
+    big = mode == "big"           # the quick tier's version of 'huge': 120 modules, 300 imports
+    huge = mode in ("huge", "big")         # hundreds of modules, close to a thousand imports, deep chains: anything with a size threshold or a quadratic shortcut
+    if huge:
+        mode = "large"
     forest = mode == "forest"     # several top-level trees: the project, external libraries kept in the graph, a sibling of the root with a longer name
     if forest:
         mode = "direct"
@@ -814,7 +843,8 @@ def gen_random_cases(rng, n, strict, mode="direct", pools=(COLLISION_FREE, ADVER
         mode = "direct"
     while len(cases) < n:
         pool = LARGE_POOL if large else rng.choice(tuple(pools) + (SORT_TRICKY,)) if forest else rng.choice(pools)
-        nodes = rand_tree(rng, pool, max_nodes=rng.choice([25, 35, 45]), max_depth=rng.choice([5, 7, 10])) if large else \
+        nodes = rand_tree(rng, pool, max_nodes=120 if big else rng.choice([250, 400]), max_depth=rng.choice([6, 12])) if huge else \
+            rand_tree(rng, pool, max_nodes=rng.choice([25, 35, 45]), max_depth=rng.choice([5, 7, 10])) if large else \
             rand_tree(rng, pool, max_nodes=rng.choice([5, 8, 12]))
         if forest:
             extra = set()
@@ -832,11 +862,11 @@ def gen_random_cases(rng, n, strict, mode="direct", pools=(COLLISION_FREE, ADVER
                     E.add((a, b))
             edges = sorted(E)
         else:
-            edges = rand_edges(rng, nodes, 30 if large else 8)
+            edges = sorted({(a, b) for a, b in ((rng.choice(nodes), rng.choice(nodes)) for _ in range(300 if big else 900)) if a != b}) if huge else rand_edges(rng, nodes, 30 if large else 8)
         fp = pick_filters(rng, nodes, strict, kmax=6 if large else 3)
         if fp is None:
             continue
-        cases.append(dict(nodes=nodes, edges=edges, specs=all_shapes(*fp), mode=mode, tag=("rand", strict, "large" if large else "forest" if forest else mode)))
+        cases.append(dict(nodes=nodes, edges=edges, specs=all_shapes(*fp), mode=mode, tag=("rand", strict, "huge" if huge else "large" if large else "forest" if forest else mode)))
     return cases
 
 
